@@ -88,7 +88,7 @@ def run(ctx):
             if r.outcome != "invariant" or r.violated != "Refines":
                 raise vlib.Infra("the model with %s does not break Refines (%s %s)" % (tag, r.outcome, r.violated))
     # 2.-4. configurations + programs from TLC, through the real middleware, trace validation
-    nprog = ctx.pick(24, 240)
+    nprog = ctx.pick(20, 240)
     depth = ctx.pick(25, 40)
     cfgnames = ["split", "same", "unmapped", "stale"]
     drv = ctx.gobuild("conditional")
